@@ -269,6 +269,7 @@ func runChild(hist []int) []string {
 
 func checkC11(args []string) {
 	run := vx.NewRun("C11", "model_checking", args)
+	activeRun = run
 	run.Rule = "TLC enumerates all call histories up to MAXLEN over the 25-call alphabet of spec/Pool.tla (lossy/lossless encodes and decodes with equal and different macroblock grids, parallel and serial paths, partitions/segments/SNS/dither/alpha options, decodes that fail mid-picture, animation, mux) together with the predicted pool reuse; every history is executed in one process with empty pools at its start and GC off; each result is compared with the same call made FIRST in a fresh process; all previously returned images/byte slices are re-hashed after every later call. distinct = distinct histories in which the model predicts (and the hook counters confirm) at least one reuse"
 	run.Assumptions = []string{"a fresh child process executing the call first defines Fresh(args)", "sync.Pool may drop objects: a predicted reuse that did not happen is reported as not covered, never as a violation", "GOMAXPROCS fixed to 8"}
 	runtime.GOMAXPROCS(8)
